@@ -157,7 +157,7 @@ def main():
             derandomize=False,
             report_multiple_bugs=False,
             suppress_health_check=list(HealthCheck),
-            phases=[Phase.generate, Phase.shrink],
+            phases=[Phase.generate] if os.environ.get("VF_NO_SHRINK") else [Phase.generate, Phase.shrink],
             print_blob=False,
         )
 
